@@ -30,7 +30,21 @@ def conc(E, t, what):
     return n
 
 
+CONTAINER_RE = re.compile(r"(?:^|::)(BTreeMap|BTreeSet|Vec|HashMap|HashSet|LinkedHashMap|LinkedHashSet|VecDeque)::<.*>::(len|is_empty)$", re.S)
+
+
 def dispatch(E, c, tc, args):
+    # ---------------- size of an abstract (lazy / opaque) container: an uninterpreted function of its identity
+    m = CONTAINER_RE.search(c)
+    if m and args:
+        from engine import VLazy
+        d = deref(E, args[0])
+        if isinstance(d, (VLazy, VOpaque)):
+            f = z3.Function("container_len", E.U, z3.IntSort())
+            n = f(E.as_u(d))
+            E.pc.append(n >= 0)
+            E.pc.append(n < (1 << 48))
+            return VInt(n, "usize") if m.group(2) == "len" else VBool(n == 0)
     # ---------------- Range<usize>
     if tc and tc[0].startswith("std::ops::Range<") and tc[1] == "Iterator" and tc[2] == "next":
         r = ref_chain(E, args[0])
@@ -50,6 +64,8 @@ def dispatch(E, c, tc, args):
             byref = isinstance(v, VRef)
             if byref:
                 r = ref_chain(E, v)
+                if d.kind == "map":
+                    return VSeq([VStruct("()", [VRef(r.cell, r.path + (("field", k), ("field", 0))), VRef(r.cell, r.path + (("field", k), ("field", 1)))]) for k in range(len(d.items))], "iter")
                 return VSeq([VRef(r.cell, r.path + (("field", k),)) for k in range(len(d.items))], "iter")
             return VSeq(list(d.items), "iter")
     # ---------------- Vec / slice basics
@@ -73,6 +89,21 @@ def dispatch(E, c, tc, args):
         d = E.read_ref(r)
         if isinstance(d, VSeq):
             return VSeq([VRef(r.cell, r.path + (("field", k),)) for k in range(len(d.items))], "iter")
+    m2 = re.search(r"(?:^|::)(BTreeMap|HashMap|LinkedHashMap)::<.*>::(iter|values|keys|len|is_empty)$", c, re.S)
+    if m2 and args:
+        r = ref_chain(E, args[0]) if isinstance(args[0], VRef) else None
+        d = E.read_ref(r) if r is not None else None
+        if isinstance(d, VSeq) and d.kind == "map":
+            n = len(d.items)
+            meth = m2.group(2)
+            if meth == "len":
+                return VInt(n, "usize")
+            if meth == "is_empty":
+                return VBool(n == 0)
+            if meth == "iter":
+                return VSeq([VStruct("()", [VRef(r.cell, r.path + (("field", k), ("field", 0))), VRef(r.cell, r.path + (("field", k), ("field", 1)))]) for k in range(n)], "iter")
+            idx = 0 if meth == "keys" else 1
+            return VSeq([VRef(r.cell, r.path + (("field", k), ("field", idx))) for k in range(n)], "iter")
     if tc and tc[1] and tc[1].startswith("Index<") and tc[2] == "index":
         r = ref_chain(E, args[0])
         d = E.read_ref(r)
@@ -101,6 +132,9 @@ def dispatch(E, c, tc, args):
     # ---------------- iterator protocol on VSeq("iter")
     if tc and tc[1] in ("Iterator", "DoubleEndedIterator") and args:
         it = deref(E, args[0])
+        if isinstance(it, VStruct) and it.name == "Range" and tc[2] != "next":
+            lo, hi = conc(E, it.fields[0].t, "range start"), conc(E, it.fields[1].t, "range end")
+            it = VSeq([VInt(k, it.fields[0].ty) for k in range(lo, max(lo, hi))], "iter")
         if isinstance(it, VSeq):
             meth = tc[2]
             if meth == "next":
